@@ -14,6 +14,7 @@ Layering (DESIGN §4 C15):
 import Dawgs.Proofs.C15
 import Dawgs.Proofs.C15Tarjan
 import Dawgs.Proofs.C15Lift
+import Dawgs.Proofs.C15Sound
 namespace Dawgs.C15.Props
 open Dawgs.C15 Dawgs.C16
 
@@ -122,6 +123,19 @@ theorem reach_cache_exact_refuted : ¬ reach_cache_exact false := by
     have hreach : Reach diamond 2 0 := Reach.tail (Reach.single (by decide : 1 ∈ diamond 2)) (by decide : 0 ∈ diamond 1)
     have := (hex 2 6 hget 0).2 hreach
     exact absurd this (by decide)
+
+/-- PARTIAL for the DFS as the code has it (and for the repaired one): it never reports and never caches a
+component that is NOT reachable — every answer and every cached binding contains its key and is a SUBSET of the true
+reach set, for any contract-satisfying cache, capacity, history.  (So F5 can only ever lose members, which is the one
+defect class the monitor sees on the unchanged tree: `reach-missing`.) -/
+theorem reach_cache_sound_partial (fixed : Bool) :
+    ∀ (σ : Type) (C : CacheI σ) (Rep : σ → Ideal → Prop), Lawful C Rep →
+    ∀ (adjf : Nat → List Nat) (fuel : Nat) (cache : σ) (m : Ideal) (c : Nat),
+      Rep cache m → CacheSound adjf m →
+      ∀ cache' r, reachDFS C adjf fixed fuel cache c = some (cache', r) →
+        SoundBits adjf c r ∧ ∃ m', Rep cache' m' ∧ CacheSound adjf m' :=
+  fun _ C Rep hL adjf fuel cache m c hrep hex cache' r h =>
+    reachDFS_sound C Rep adjf hL fixed fuel cache m hrep hex c cache' r h
 
 /-- Termination of `componentReachDFS` (either variant): on a digraph whose adjacency stays inside a finite
 node list, `2·(|V|+1)²+1` loop iterations always suffice, from every cache state. -/
